@@ -35,6 +35,8 @@ type Case struct {
 	Usage  []string        `json:"usage,omitempty"`
 	Base   string          `json:"base,omitempty"` // index base name (default "set")
 	Dir    string          `json:"dir,omitempty"`  // name of the set directory (default "w")
+	Prof   bool            `json:"prof,omitempty"` // the global option -cpuprofile <file> is given to every command
+	Deep   bool            `json:"deep,omitempty"` // verify and repair run (with relative paths) from a working directory whose absolute path is longer than PATH_MAX
 }
 
 var spC = []string{"c", "create", "C", "Create", "CREATE"}
@@ -49,6 +51,40 @@ type res struct {
 func par(cwd string, args ...string) res {
 	cmd := exec.Command(os.Getenv("VERIF_PAR_BIN"), args...)
 	cmd.Dir = cwd
+	var buf bytes.Buffer
+	cmd.Stdout, cmd.Stderr = &buf, &buf
+	err := cmd.Run()
+	code := 0
+	if err != nil {
+		if ee, ok := err.(*exec.ExitError); ok {
+			code = ee.ExitCode()
+		} else {
+			code = -1
+		}
+	}
+	return res{code, buf.String()}
+}
+
+// parDeep runs par with the set's directory moved (for the duration of the command) to the bottom of a chain of directories
+// whose absolute path is longer than PATH_MAX; every step of the way is a relative chdir / rename, as a user would get there.
+func parDeep(base, setDir string, args ...string) res {
+	comp := "d" + strings.Repeat("e", 239)
+	// every chdir / mkdir / rename below takes a short relative (or the short absolute source) path
+	script := `import os, sys, subprocess
+binp, src, comp, args = sys.argv[1], sys.argv[2], sys.argv[3], sys.argv[4:]
+for i in range(21):
+    if not os.path.isdir(comp):
+        os.mkdir(comp)
+    os.chdir(comp)
+os.rename(src, "w")
+os.chdir("w")
+rc = subprocess.call([binp] + args)
+os.chdir("..")
+os.rename("w", src)
+sys.exit(rc if rc >= 0 else 128 - rc)
+`
+	cmd := exec.Command("python3", append([]string{"-c", script, os.Getenv("VERIF_PAR_BIN"), setDir, comp}, args...)...)
+	cmd.Dir = base
 	var buf bytes.Buffer
 	cmd.Stdout, cmd.Stderr = &buf, &buf
 	err := cmd.Run()
@@ -127,6 +163,9 @@ func check(c Case) (msg, key string) {
 	var global []string
 	if c.G > 0 {
 		global = []string{"-g", strconv.Itoa(c.G)}
+	}
+	if c.Prof {
+		global = append(global, "-cpuprofile", filepath.Join(root, "cpu.prof"))
 	}
 	// create
 	args := append(append([]string{}, global...), spC[c.Spell%len(spC)])
@@ -420,7 +459,12 @@ func check(c Case) (msg, key string) {
 		vargs = append(vargs, "-a")
 	}
 	vargs = append(vargs, idx)
-	r = par(cwd, vargs...)
+	if c.Deep {
+		vargs[len(vargs)-1] = idxName
+		r = parDeep(filepath.Join(root, "p"), dir, vargs...)
+	} else {
+		r = par(cwd, vargs...)
+	}
 	if panicked(r) {
 		return "par verify panicked: " + tail(r.out), ""
 	}
@@ -439,7 +483,12 @@ func check(c Case) (msg, key string) {
 		rargs = append(rargs, "-doublecheck")
 	}
 	rargs = append(rargs, idx)
-	r = par(cwd, rargs...)
+	if c.Deep {
+		rargs[len(rargs)-1] = idxName
+		r = parDeep(filepath.Join(root, "p"), dir, rargs...)
+	} else {
+		r = par(cwd, rargs...)
+	}
 	if panicked(r) {
 		return "par repair panicked: " + tail(r.out), ""
 	}
@@ -458,7 +507,11 @@ func check(c Case) (msg, key string) {
 	}
 	if expectR == 0 {
 		// after a successful repair verify is clean
-		r = par(cwd, append(append([]string{}, global...), "v", idx)...)
+		if c.Deep {
+			r = parDeep(filepath.Join(root, "p"), dir, append(append([]string{}, global...), "v", idxName)...)
+		} else {
+			r = par(cwd, append(append([]string{}, global...), "v", idx)...)
+		}
 		if r.code != 0 {
 			return fmt.Sprintf("verify after a successful repair exited %d", r.code), ""
 		}
@@ -469,7 +522,7 @@ func check(c Case) (msg, key string) {
 var states2 = []string{"intact", "stale-volumes", "cut-in-zero-tail", "dup-slice", "symlinked-volumes", "dup-volume", "grown-16k", "repairable", "repairable-flip", "relocation", "length-only", "create-obstructed", "swap", "unrepairable", "noparity-damaged", "all-lost", "noparity-intact", "damaged-index", "missing-index", "unknown-ext"}
 var states1 = []string{"intact", "par1-comment", "symlinked-volumes", "grown-16k", "repairable", "repairable-flip", "create-obstructed", "unrepairable", "noparity-damaged", "all-lost", "noparity-intact", "damaged-index", "missing-index", "unknown-ext"}
 
-var usages = [][]string{{}, {"frobnicate"}, {"frobnicate", "set.par2"}, {"v"}, {"verify"}, {"r"}, {"c"}, {"c", "set.par2"}, {"create", "set.par"}, {"-bogus", "v", "set.par2"},
+var usages = [][]string{{}, {"", "set.par2", "a"}, {"", "set.par", "a"}, {"frobnicate"}, {"frobnicate", "set.par2"}, {"v"}, {"verify"}, {"r"}, {"c"}, {"c", "set.par2"}, {"create", "set.par"}, {"-bogus", "v", "set.par2"},
 	{"-g", "abc", "v", "set.par2"}, {"c", "-s", "xyz", "set.par2", "a"}, {"c", "-c", "1.5", "set.par2", "a"}, {"v", "-bogus", "set.par2"}, {"r", "-bogus", "set.par"}, {"-g"}, {"c", "-s"}}
 
 var idxBases = []string{"set", "set", "backup.vol7+3", "rate 5%", "my%20set", "a b", "x.y", "100%d", "q[1]", "backup.part1", "x.par2", "set.par"}
@@ -491,6 +544,8 @@ func mk(format, state string, i int) Case {
 	if state == "dup-volume" {
 		c.N = 1
 	}
+	c.Prof = i%5 == 3
+	c.Deep = i%6 == 4 && state != "create-obstructed" && state != "unknown-ext"
 	if state == "dup-slice" && format == "par2" {
 		// every slice of the first file is the same block, except the second one
 		c.Files[0] = scen.FileSpec{Name: "a.dat", Size: 8*c.Slice - i%3, Kind: "repeat", Seed: uint64(2 * i)}
